@@ -8,9 +8,9 @@ func init() {
 	Properties["C04"] = PropSpec{
 		Rules:          []Rule{PoolCtor, PoolAPI, ResLinear, Slots},
 		DebugConfigToo: true,
-		Explanation: "Decides the complete structural argument the code relies on for recycling safety, on every path and call order: POOL-CTOR/POOL-CLEARED (a borrowed validator has every field assigned before it is returned and no field is read before assignment, directly or via methods of the half-built object; a recycled Result is reset leaf field by leaf field; scratch schemas are overwritten as a whole before any use); POOL-API (sync.Pool only inside Borrow*/Redeem*, Redeem<T> only from (*T).redeem, redeem() only from the deferred closure of the type's own Validate or on a child held in a slot, resetPools only at init, emptyResult refused by RedeemResult); EMPTY-IMMUTABLE (no mutating use of a value that may be the shared empty result); RES-LINEAR (forward may-dataflow per function with derived consuming positions: no use, return or second release of a pooled result after the call that released it, deferred releases take effect at RunDefers); SLOT-PRECLEAR/POSTCLEAR/INIT/SELFREDEEM/ONESHOT (typestate of child validators in slots: emptied under the recycle option before the child runs, emptied after a release, filled only in the parent's constructor from distinct constructor calls, self-release deferred once under the guard, fresh validators run once); DEFER-INIT.",
-		NotDecided:  "That outcomes equal those of a fresh process (behavioural); aliasing carried through dependencies; leaks (not violations).",
-		Assumptions: []string{"a recycling validator is used once (documented contract)", trustDeps},
+		Explanation:    "Decides the complete structural argument the code relies on for recycling safety, on every path and call order: POOL-CTOR/POOL-CLEARED (a borrowed validator has every field assigned before it is returned and no field is read before assignment, directly or via methods of the half-built object; a recycled Result is reset leaf field by leaf field; scratch schemas are overwritten as a whole before any use); POOL-API (sync.Pool only inside Borrow*/Redeem*, Redeem<T> only from (*T).redeem, redeem() only from the deferred closure of the type's own Validate or on a child held in a slot, resetPools only at init, emptyResult refused by RedeemResult); EMPTY-IMMUTABLE (no mutating use of a value that may be the shared empty result); RES-LINEAR (forward may-dataflow per function with derived consuming positions: no use, return or second release of a pooled result after the call that released it, deferred releases take effect at RunDefers); SLOT-PRECLEAR/POSTCLEAR/INIT/SELFREDEEM/ONESHOT (typestate of child validators in slots: emptied under the recycle option before the child runs, emptied after a release, filled only in the parent's constructor from distinct constructor calls, self-release deferred once under the guard, fresh validators run once); DEFER-INIT.",
+		NotDecided:     "That outcomes equal those of a fresh process (behavioural); aliasing carried through dependencies; leaks (not violations).",
+		Assumptions:    []string{"a recycling validator is used once (documented contract)", trustDeps},
 	}
 	Properties["C05"] = PropSpec{
 		Rules:       []Rule{Globals, Cow, PoolAPI, ResLinear, Slots, Stateless},
@@ -35,5 +35,14 @@ func init() {
 		Explanation: "Static analysis of the whole pattern-cache mechanism on SSA: published snapshots are never written (no MapUpdate/delete on a value derived from the cache load, anywhere in the package); publication happens only in one function, with the mutex in the must-held lockset, after re-loading the snapshot inside the critical section, into a freshly made map that receives every old entry and new entries keyed by String() of the inserted expression; lookups use the requested pattern as key; the miss path compiles exactly the pattern parameter, returns/caches that very value, and returns the compile error unchanged with nothing cached; regexp.Compile/MustCompile/Match* occur nowhere else; the Must variant is only called with constants that the checker itself parses; every call site uses the expression only where the error is known nil.",
 		NotDecided:  "The regexp package itself (matching semantics), and sync/atomic.",
 		Assumptions: []string{"regexp.Regexp.String() returns the source text used to compile (regexp documentation)", "sync.Mutex and atomic.Value are correct"},
+	}
+}
+
+func init() {
+	Properties["C07"] = PropSpec{
+		Rules:       []Rule{NilRule(nil)},
+		Explanation: "(being extended) NIL: every dereference of a value that may be nil is dominated by a nil test of the same value or access path.",
+		NotDecided:  "Termination; panics inside dependencies.",
+		Assumptions: []string{trustDeps},
 	}
 }
